@@ -20,9 +20,11 @@ import types
 
 # --------------------------------------------------------------------------- the pool
 
-def _p(name, src, callees=(), annots=("Qint",), params=False, argtypes=("Qint2",), level=0, twin=None):
+def _p(name, src, callees=(), annots=("Qint",), params=False, argtypes=("Qint2",), level=0, twin=None, pvals=()):
+    """`argtypes`: the types of the arguments that are NOT parameters; `pvals`: the candidate
+    bindings (keyword dicts) of a program with Parameter[...] arguments"""
     return dict(name=name, src=src, callees=list(callees), annots=list(annots), params=params,
-                argtypes=list(argtypes), level=level, twin=twin)
+                argtypes=list(argtypes), level=level, twin=twin, pvals=[dict(v) for v in pvals])
 
 
 # names of the library's own module globals / of locals of QlassF.from_function that the pool
@@ -69,7 +71,45 @@ POOL = [
     _p("top", "def top(a: Qint[2]) -> bool:\n  return h(a)", callees=("h",), level=2),
     # parameters
     _p("par", "def par(a: Qint[2], p: Parameter[bool]) -> bool:\n  return a[0] and p", annots=("Qint", "Parameter"),
-       params=True),
+       params=True, pvals=[dict(p=True), dict(p=False)]),
+    # ---- appended (indices above are referred to by the witnesses in known_findings.json) ----
+    # parameters that are lists / tuples, consumed by the aggregates ast2ast unrolls (sum any all len
+    # max min), by a for loop and by constant indexing; the parameter first / last
+    _p("psum", "def psum(a: Qint[2], c: Parameter[Qlist[Qint[2], 2]]) -> Qint[2]:\n  return a + sum(c)",
+       annots=("Qint", "Parameter", "Qlist"), params=True, pvals=[dict(c=[1, 0]), dict(c=[1, 1]), dict(c=[3, 0])]),
+    _p("pany", "def pany(a: bool, m: Parameter[Qlist[bool, 3]]) -> bool:\n  return any(m) and a",
+       annots=("Parameter", "Qlist"), argtypes=("bool",), params=True,
+       pvals=[dict(m=[False, False, False]), dict(m=[False, True, False]), dict(m=[True, True, True])]),
+    _p("pall", "def pall(m: Parameter[Qlist[bool, 3]], a: bool) -> bool:\n  return all(m) and a",
+       annots=("Parameter", "Qlist"), argtypes=("bool",), params=True,
+       pvals=[dict(m=[True, True, True]), dict(m=[True, False, True]), dict(m=[False, False, False])]),
+    _p("plen", "def plen(a: Qint[2], c: Parameter[Qlist[Qint[2], 2]]) -> Qint[2]:\n  return a + len(c)",
+       annots=("Qint", "Parameter", "Qlist"), params=True, pvals=[dict(c=[1, 0]), dict(c=[1, 1, 1]), dict(c=[2])]),
+    _p("pmax", "def pmax(a: Qint[2], c: Parameter[Qlist[Qint[2], 2]]) -> bool:\n  return a == max(c)",
+       annots=("Qint", "Parameter", "Qlist"), params=True, pvals=[dict(c=[1, 0]), dict(c=[1, 3]), dict(c=[2, 2])]),
+    _p("pmin", "def pmin(c: Parameter[Qlist[Qint[2], 2]], a: Qint[2]) -> bool:\n  return a == min(c)",
+       annots=("Qint", "Parameter", "Qlist"), params=True, pvals=[dict(c=[1, 0]), dict(c=[1, 3]), dict(c=[2, 3])]),
+    _p("pfor", "def pfor(a: Qint[2], c: Parameter[Qlist[Qint[2], 2]]) -> Qint[2]:\n  r = a\n  for x in c:\n    r = r ^ x\n  return r",
+       annots=("Qint", "Parameter", "Qlist"), params=True, pvals=[dict(c=[1, 0]), dict(c=[1, 1]), dict(c=[2, 1])]),
+    _p("ptup", "def ptup(a: bool, t: Parameter[Tuple[bool, Qint[2]]]) -> Qint[2]:\n  return t[1] if (a or t[0]) else 0",
+       annots=("Qint", "Parameter", "Tuple"), argtypes=("bool",), params=True,
+       pvals=[dict(t=[False, 2]), dict(t=[True, 1]), dict(t=[False, 3])]),
+    # two parameters, one of them a list under two aggregates at once
+    _p("pmix", "def pmix(a: Qint[2], c: Parameter[Qlist[Qint[2], 2]], p: Parameter[bool]) -> bool:\n"
+               "  return (a == sum(c)) ^ (p and a[0]) ^ (a == max(c))",
+       annots=("Qint", "Parameter", "Qlist"), params=True,
+       pvals=[dict(c=[1, 0], p=True), dict(c=[1, 2], p=False), dict(c=[0, 2], p=True)]),
+    # a function called g again, this time one that has to be bound first (usable as a definition afterwards)
+    _p("g", "def g(a: Qint[2], c: Parameter[Qlist[Qint[2], 2]]) -> bool:\n  return a == sum(c)",
+       annots=("Qint", "Parameter", "Qlist"), params=True, pvals=[dict(c=[1, 0]), dict(c=[1, 1]), dict(c=[2, 1])]),
+    # unbound functions built with defs=[...]: every bind translates with the same definition objects
+    _p("pk", "def pk(a: Qint[2], k: Parameter[Qint[2]]) -> bool:\n  return g(a + k)", callees=("g",),
+       annots=("Qint", "Parameter"), params=True, level=1, pvals=[dict(k=1), dict(k=2), dict(k=3)]),
+    _p("pq", "def pq(a: Qint[2], m: Parameter[Qlist[bool, 2]]) -> bool:\n  return (g(a) and any(m)) ^ f(a)",
+       callees=("g", "f"), annots=("Qint", "Parameter", "Qlist"), params=True, level=1,
+       pvals=[dict(m=[False, False]), dict(m=[False, True]), dict(m=[True, True])]),
+    _p("pt", "def pt(a: Qint[2], p: Parameter[bool]) -> bool:\n  return h(a) ^ p", callees=("h",),
+       annots=("Qint", "Parameter"), params=True, level=2, pvals=[dict(p=True), dict(p=False)]),
 ]
 
 
@@ -190,6 +230,29 @@ def qf_fp(qf):
                 orig=fn_table(qf.original_f, argtypes))
 
 
+def unbound_template(o):
+    """the state an UnboundQlassf keeps between binds, as text: its parsed function (arguments, body,
+    return annotation) and the parameter annotations.  Plain text, not a hash: the names of twin
+    functions are put back by text replacement."""
+    import ast
+
+    fd = o.fun_ast.body[0]
+    return [ast.dump(fd.args), [ast.dump(x) for x in fd.body], ast.dump(fd.returns) if fd.returns is not None else None,
+            [[k, ast.dump(v)] for k, v in sorted(o.parameters.items())]]
+
+
+def unbound_defs(o):
+    """the definitions (LogicFun tuples) the closure `_do_translate` translates with at every bind;
+    None when the closure does not have that shape"""
+    try:
+        fn = o._do_translate
+        cells = dict(zip(fn.__code__.co_freevars, fn.__closure__ or ()))
+        return [[str(d[0]), [str(a) for a in d[1]], str(d[2]), [[str(x), str(e)] for x, e in d[3]]]
+                for d in cells["defs"].cell_contents]
+    except Exception:  # noqa
+        return None
+
+
 def obj_fp(o, objs):
     if o is None:
         return None
@@ -197,7 +260,8 @@ def obj_fp(o, objs):
     if cn == "QlassF":
         return qf_fp(o)
     if cn == "UnboundQlassf":
-        return dict(k="unb", name=o.fun_ast.body[0].name, params=sorted(o.parameters))
+        return dict(k="unb", name=o.fun_ast.body[0].name, params=sorted(o.parameters), tmpl=unbound_template(o),
+                    held=unbound_defs(o))
     # an algorithm
     inner = getattr(o, "oracle", None) or getattr(o, "f", None)
     sub = None
@@ -270,7 +334,8 @@ def _load_callable(i, moddir, twin=False):
     path = os.path.join(moddir, mname + ".py")
     if not os.path.exists(path):
         with open(path + ".tmp%d" % os.getpid(), "w") as f:
-            f.write("from qlasskit.types import *  # noqa\nfrom qlasskit import Parameter  # noqa\n\n"
+            f.write("from typing import List, Tuple  # noqa\nfrom qlasskit.types import *  # noqa\n"
+                    "from qlasskit import Parameter  # noqa\n\n"
                     + (twin_src(i) if twin else p["src"]) + "\n")
         os.replace(path + ".tmp%d" % os.getpid(), path)
     if moddir not in sys.path:
@@ -448,8 +513,13 @@ def ref_function(tree):
     if tree["src"][0] == "bound":
         import functools
 
-        fn = functools.partial(fn, **json.loads(tree["src"][2]))
-        argtypes = argtypes[: len(argtypes)]
+        import ast
+
+        # the parameters by keyword, the remaining arguments in the order the source declares them
+        # (a Parameter may come first)
+        pv = json.loads(tree["src"][2])
+        rest = [a.arg for a in ast.parse(text).body[0].args.args if a.arg not in pv]
+        fn = functools.partial(lambda *args, _f=fn, _pv=pv, _rest=rest: _f(**dict(zip(_rest, args)), **_pv))
     return fn, [type_by_name(t) for t in argtypes]
 
 
